@@ -69,6 +69,11 @@ def closure_rule(ctx: Ctx, fns: list[FunctionInfo]) -> int:
     return n
 
 
+def is_stub_fn(f) -> bool:
+    from ..frontend import is_stub
+    return is_stub(f.node)
+
+
 def run(ctx: Ctx) -> None:
     prog, res = ctx.prog, ctx.res
     ctx.rule("C20.R1", "closures stored from a loop/comprehension bind the iteration variables they read")
@@ -317,49 +322,52 @@ def run(ctx: Ctx) -> None:
                        "code outside the recorder reaches the log handle")
     ctx.floor("C20.R5", nother, 4, "handle uses inside the recorder")
 
-    # ---- R7 trackers register everything
+    # ---- R7 trackers register everything: evaluate() of every tracker class is interpreted (sa/modelinterp; methods of the
+    # tracker inlined through the hierarchy) on batches of symbolic individuals with two recorders; whatever the comparison
+    # outcomes (explored both ways), every individual the evaluator hands back is registered with every recorder exactly once
+    from ..modelinterp import Budget, Interp, Sym, UNKNOWN
     n7 = 0
     for c in prog.subclasses(TRACKER):
-        ev = c.methods.get("evaluate")
-        if ev is None:
+        ev = prog.lookup_method(c, "evaluate")
+        if ev is None or ev.cls is None or is_stub_fn(ev):
             continue
-        # per-individual code: the for-loop over evaluate_async in evaluate, following self.<helper>(ind) one level
-        loops = [l for l in walk_local(ev.node) if isinstance(l, ast.For) and isinstance(l.iter, ast.Call)
-                 and call_name(l.iter) == "evaluate_async"]
-        if len(loops) != 1:
-            ctx.ob("C20.R7", ev, ev.node, "per-individual loop over evaluate_async", None,
-                   f"{len(loops)} loops over evaluate_async")
-            continue
-        loop = loops[0]
-        ind = loop.target.id if isinstance(loop.target, ast.Name) else None
-        body_fn, body, indname = ev, loop.body, ind
-        if len(body) == 1 and isinstance(body[0], ast.Expr) and isinstance(body[0].value, ast.Call) \
-                and is_self_attr(body[0].value.func) and body[0].value.args \
-                and isinstance(body[0].value.args[0], ast.Name) and body[0].value.args[0].id == ind:
-            h = prog.lookup_method(c, body[0].value.func.attr)
-            if h is not None:
-                body_fn, body, indname = h, h.node.body, h.params[1]
-        # the recorder loop must be a top-level statement of the per-individual body, after which/before which no exit
-        top = [s for s in body if isinstance(s, ast.For) and is_self_attr(s.iter, "recorders")]
         n7 += 1
-        if len(top) != 1:
-            ctx.ob("C20.R7", body_fn, body[0], "for recorder in self.recorders", False,
-                   f"{len(top)} unconditional recorder loops in the per-individual body (expected exactly 1)")
-            continue
-        rl = top[0]
-        idx = body.index(rl)
-        early = not may_fall_through(body[:idx])
-        esc = [s for s in ast.walk(ast.Module(body=body[:idx], type_ignores=[]))
-               if isinstance(s, (ast.Return, ast.Continue, ast.Break, ast.Raise))]
-        regs = [x for x in ast.walk(rl) if isinstance(x, ast.Call) and call_name(x) == "register"]
-        okreg = len(regs) == 1 and not guards(regs[0], stop=rl) and any(
-            (k.arg == "individual" and isinstance(k.value, ast.Name) and k.value.id == indname) for k in regs[0].keywords
-        ) or (len(regs) == 1 and not guards(regs[0], stop=rl) and len(regs[0].args) >= 2
-              and isinstance(regs[0].args[1], ast.Name) and regs[0].args[1].id == indname)
-        ok = not early and not esc and okreg
-        ctx.ob("C20.R7", body_fn, rl, "every evaluated individual is registered with every recorder", ok,
-               "" if ok else ("an exit precedes the recorder loop" if (early or esc) else
-                              "register is conditional / not applied to the evaluated individual"))
+        bad = und = None
+        for batch in (["i1"], ["i1", "i2"]):
+            inds = [Sym(t) for t in batch]
+
+            def call_model(it, call, env, args, kwargs, inds=inds):
+                nm = call_name(call)
+                if nm == "evaluate_async":
+                    return list(inds)
+                return None
+
+            it = Interp(prog, c, lambda *_: None, call_model, record_calls=("register",), max_depth=5, max_traces=128)
+            env = {"self": Sym("self"), ev.params[1]: list(inds), "self.recorders": [Sym("rec1"), Sym("rec2")], "self.problem": Sym("problem"),
+                   "self.evaluator": Sym("evaluator"), "self.best_individual": None, "self.pareto_front": []}
+            try:
+                runs = it.run(ev, env)
+            except Budget:
+                und = "too many interpretations"
+                continue
+            for trace, rv, notes in runs:
+                if any(e.kind == "raise" for e in trace):
+                    continue
+                regs = [e for e in trace if e.kind == "call" and e.name == "register"]
+                for t in batch:
+                    for r in ("rec1", "rec2"):
+                        k = sum(1 for e in regs if isinstance(e.recv, Sym) and e.recv.tag == r and
+                                (e.kwargs.get("individual") == Sym(t) or (len(e.args) >= 2 and e.args[1] == Sym(t))))
+                        if k != 1 and bad is None:
+                            unk = any(e.recv is UNKNOWN or e.kwargs.get("individual", Sym("?")) is UNKNOWN for e in regs)
+                            if unk:
+                                und = und or "register calls not followed"
+                            else:
+                                bad = (f"for the batch {batch} individual {t} is registered {k} time(s) with recorder {r} on a path "
+                                       f"(is_best flags {[e.kwargs.get('is_best') for e in regs]}): " +
+                                       ("an evaluated individual is missing from the log" if k == 0 else "an individual is logged more than once"))
+        ctx.ob("C20.R7", ev, ev.node, f"{c.name}: every evaluated individual is registered with every recorder exactly once (all comparison outcomes)",
+               False if bad else (None if und else True), bad or und or "")
     ctx.floor("C20.R7", n7, 2, "tracker evaluate implementations")
     ctx.assumptions += [
         "csv.writer.writerow assembles the whole record before a single write() on the file object (CPython _csv)",
